@@ -300,6 +300,62 @@ def check_titles_doc(text, inner_heading, real=False):
     return None
 
 
+def check_titles_include(l1, linc, l2, offset, real=False):
+    """An include with a heading inside the body of a match_titles directive, between two other headings: one nesting rule for all three."""
+    import os, tempfile
+    from docutils import nodes
+
+    _register_titles_directive()
+    with tempfile.TemporaryDirectory(prefix="symx_c05_") as d:
+        open(os.path.join(d, "inc.md"), "w").write("#" * linc + " Inc\n\nincluded para\n")
+        lines = ["# Top", "", "::::{symx-titles}", "#" * l1 + " First", "", "p1", "", "```{include} inc.md"] + ([":heading-offset: %d" % offset] if offset else []) + ["```", "", "#" * l2 + " Later", "", "p2", "::::", "", "## After", "", "end"]
+        text = "\n".join(lines) + "\n"
+        doc, warn = CR.publish(text, {"myst_enable_extensions": ["colon_fence"], "doctitle_xform": False, "report_level": 5}, real=real, source=os.path.join(d, "src.md"))
+    secs = {s_[0].astext(): s_ for s_ in doc.findall(nodes.section) if len(s_) and isinstance(s_[0], nodes.title)}
+    if sorted(secs) != sorted(["Top", "First", "Inc", "Later", "After"]):
+        return ("titles-directive-sections", "sections %r in %r" % (sorted(secs), text))
+    # the one nesting rule of the document (levels >= 2 here, below '# Top'): the parent is the nearest earlier heading with a lower level
+    seq = [(1, "Top"), (l1, "First"), (linc + offset, "Inc"), (l2, "Later")]
+    for i, (lv, name) in enumerate(seq):
+        if i == 0:
+            continue
+        want = None
+        for plv, pname in reversed(seq[:i]):
+            if plv < lv:
+                want = pname
+                break
+        par = secs[name].parent
+        got = par[0].astext() if isinstance(par, nodes.section) else None
+        if got != want:
+            return ("include-in-titles-directive", "levels First=%d Inc=%d(+%d) Later=%d: %s is under %r, expected under %r" % (l1, linc, offset, l2, name, got or par.tagname, want))
+    if secs["After"].parent is not secs["Top"]:
+        return ("surrounding-structure-affected", "the heading after the directive is under %s" % (secs["After"].parent.tagname,))
+    return None
+
+
+def make_titles_include(eng):
+    CR.setup_pipeline()
+    c = CR.Choice(eng)
+    state = {}
+    eng.witness_fn = lambda m: dict(state)
+
+    def body():
+        c.reset()
+        args = [2 + c.choose(2), 2 + c.choose(2), 2 + c.choose(3), c.choose(2)]
+        state.update(titles_include=args)
+        try:
+            err = check_titles_include(*args)
+        except Exception as exc:  # noqa
+            eng.fail("render-raises", "%s: %s" % (type(exc).__name__, exc))
+        if err:
+            eng.fail(*err)
+        eng.passed(4)
+        eng.note("structure")
+        return "ok"
+
+    return body
+
+
 def make_titles_docs(eng):
     CR.setup_pipeline()
     c = CR.Choice(eng)
@@ -335,6 +391,8 @@ def families(tier, seed):
                         args=dict(k=k, places=PLACES, levels="1234" if (q and k >= 3) else "123456"), nontrivial="structure", max_forks=200000, required=(k <= 3)))
     F.append(Family("titles-directive-docs", make_titles_docs, "documents with a directive that allows sections in its body (match_titles=True) containing two headings (levels 1-3) and a second such directive before / between / after them, with or without its own heading: "
                     "headings directly in such a body stay sections, the structure after the directive is unaffected", nontrivial="structure", max_forks=10000))
+    F.append(Family("titles-directive-include", make_titles_include, "a match_titles directive (below '# Top') whose body has a heading (level 2-3), an include of a file with a heading (level 2-3, heading-offset 0/1) and another heading (level 2-4): "
+                    "all three nest by the one level rule, the structure after the directive is unaffected", nontrivial="structure", max_forks=10000))
     F.append(Family("titles-quote/K3", make_seq, "3 headings (levels 1-3), each at top level, directly in a match_titles nested parse, or inside a block quote inside such a nested parse (sections only directly under the directive's node)",
                     args=dict(k=3, places=["top", "nested-titles", "nested-titles+quote"], levels="123"), nontrivial="structure", max_forks=200000))
     for k in ([3] if q else [3, 4]):
@@ -353,6 +411,12 @@ def families(tier, seed):
 
 
 def replay(label, witness):
+    if "titles_include" in witness:
+        try:
+            err = check_titles_include(*witness["titles_include"], real=True)
+        except Exception as e:  # noqa
+            return ("C05/exception:%s" % type(e).__name__, "%r" % (e,))
+        return ("C05/%s" % err[0], err[1]) if err else None
     if "titles_doc" in witness:
         try:
             err = check_titles_doc(witness["titles_doc"], witness["inner_heading"], real=True)
